@@ -50,8 +50,10 @@ class T2Case(TagCase):
 
     def silicon(self, image=None):
         lay = self.layout
-        return t2t.T2TSilicon(image if image is not None else self.image, uid=self.uid,
-                              or_only=lay.lock_bytes)
+        sil = t2t.T2TSilicon(image if image is not None else self.image, uid=self.uid,
+                             or_only=lay.lock_bytes)
+        sil.nak_value = getattr(self, "nak_value", 0x00)
+        return sil
 
     def world(self, nfc, image=None):
         sil = self.silicon(image)
@@ -436,7 +438,8 @@ class T4Case(TagCase):
 
     def silicon(self, image=None):
         app = t4t.NdefApp(self.ver, self.mle, self.mlc, self.fid,
-                          image if image is not None else self.image, self.size, v1_aid=self.v1_aid)
+                          image if image is not None else self.image, self.size, v1_aid=self.v1_aid,
+                          enforce=not getattr(self, "lenient", False))
         plan = None
         if self.wtx_every:
             cnt = [0]
@@ -454,7 +457,7 @@ class T4Case(TagCase):
         return w
 
     def true_capacity(self):
-        return self.size - self.nlen_size
+        return min(self.size, 0x10000) - self.nlen_size      # READ/UPDATE BINARY offsets end at FFFFh
 
     def parse(self, mem):
         return t4t.parse_ndef_file(mem, self.nlen_size, self.size)
@@ -469,7 +472,7 @@ class T4Case(TagCase):
                 "old_len": len(self.old), "wtx_every": self.wtx_every}
 
 
-def gen_t4(sim, big=False, want_old=None, atomic_nlen=False, protocol_variants=False):
+def gen_t4(sim, big=False, want_old=None, atomic_nlen=False, protocol_variants=False, huge=False):
     ver = sim.wpick("t4.ver", [(4, 0x20), (2, 0x30), (1, 0x10)])
     mle = sim.wpick("t4.mle", [(2, 0x0F), (2, 0x3B), (2, 0xF6), (2, 0xFF), (2, 0x100), (1, 0x101),
                                (1, 0x1000), (1, 0xFFFF), (1, 0x20)])
@@ -483,6 +486,13 @@ def gen_t4(sim, big=False, want_old=None, atomic_nlen=False, protocol_variants=F
                      ([(1, 4096), (1, 32768)] if big else []))
     if mlc <= 3 and size > 300:
         size = 128          # keep run time bounded: 1-byte UPDATE BINARY chunks
+    lenient = False
+    if huge and nl == 4 and sim.chance("t4.huge", 0.15):
+        # mapping version 3 file beyond 64 KiB on a card that takes P1-P2 as a plain 16 bit offset: what can be
+        # addressed (and must be reported as capacity) ends at offset FFFFh
+        size = sim.pick("t4.huge.size", [0x10000 + 2, 0x10000 + 300, 70000])
+        mle, mlc, lenient = max(mle, 0xF6), max(mlc, 0xF6), True
+        sim.probe("t4.file_beyond_64k")
     physical = size + sim.pick("t4.extra", [0, 0, 3, 16])
     tech = sim.pick("t4.tech", ["A", "A", "B"])
     uid = b"\x08" + sim.bytes("t4.uid", 3, tag=2)
@@ -493,7 +503,7 @@ def gen_t4(sim, big=False, want_old=None, atomic_nlen=False, protocol_variants=F
     max_recv = sim.wpick("t4.maxrecv", [(4, 290), (1, 64), (1, 264), (1, 255)])
     v1_aid = ver >> 4 == 1
     wtx_every = sim.wpick("t4.wtx", [(4, 0), (1, 3), (1, 1)]) if protocol_variants else 0
-    cap = size - nl
+    cap = min(size, 0x10000) - nl
     if want_old is None:
         old_len, oc = pick_len(sim, "t4.oldlen", cap)
     else:
@@ -503,6 +513,7 @@ def gen_t4(sim, big=False, want_old=None, atomic_nlen=False, protocol_variants=F
     case = T4Case(ver, mle, mlc, fid, size, physical, old, sim.choose("t4.fill", 1 << 16), tech, uid,
                   fsci, fwi, chunk, max_send, max_recv, v1_aid, wtx_every)
     case.old_class = oc
+    case.lenient = lenient
     return case
 
 
